@@ -17,7 +17,7 @@ def cancel_case(draw):
   for _ in range(n):
     sources.append({"kind": draw(st.sampled_from(["fifo", "lifo"])),
                     "period": draw(st.sampled_from([0.5, 0.5, 1.0, 0.25, 0.75])),
-                    "times": draw(st.sampled_from([0, 0, 3, 5])),
+                    "times": draw(st.sampled_from([0, 0, 1, 2, 3, 5])),
                     "deferred": draw(st.sampled_from([True, False])),
                     "sig": draw(st.sampled_from(SIGNAMES))})
   ncancel = draw(st.integers(1, 2))
@@ -40,10 +40,10 @@ def cancel_case(draw):
 
 class C11(Prop):
   id = "C11"
-  quick_examples = 300
+  quick_examples = 600
   thorough_examples = 4000
   rule = ("Generated sets of 1-4 timed sources (fifo/lifo, periods from {0.25,0.5,0.75,1.0}, times "
-          "in {0,3,5}, deferred or not, signals from three names so that sources share names) and "
+          "in {0,1,2,3,5}, deferred or not, signals from three names so that sources share names) and "
           "1-2 cancellations issued by the body at generated virtual instants that are multiples of "
           "0.25 (so they frequently coincide with a firing, leaving the interleaving to the "
           "generated schedule): cancel_event(id) or cancel_events(e), where the id / event is the "
